@@ -32,6 +32,7 @@ def string_values(rng):
         ("x" * rng.choice([300, 5000, 70000]), "long"), ("0", "int_looking"), ("00012", "leading_zero"),
         ("NaN", "nan_looking"), ("-0", "int_looking"), ("1.0", "float_looking"), ("  padded  ", "padded"),
         ("a,b;c:d=e", "punct"), ("(paren)", "punct"),
+        ("a}b", "brace"), ("{name}", "brace"), ("}{", "brace"), ("{\"k\":1}", "object_looking"), ("]", "brace"),
     ]
 
 
